@@ -91,6 +91,8 @@ class C07(Check):
                 order = list(F.FORMATS)
                 st('order').shuffle(order)
                 s['order'] = order
+                # the caller says which format it expects (the image's own)
+                s['expected'] = st('order').random() < 0.5
             scheds.append(s)
         prefixes = []
         if info['fmt'] in PREFIX_FORMATS and info.get('size_field'):
@@ -180,7 +182,9 @@ class C07(Check):
             for pos, val in trace:
                 if pos < n:
                     check_prefix(pos, val, 'mid-stream', j)
-            if final != declared and declared is not None:
+            if final is None:
+                bump(pr, 'cut_off_by_expected_inspector')
+            elif final != declared and declared is not None:
                 viols.append({'cls': 'size_mismatch', 'detail': {
                     'inspector': fmt, 'declared': declared, 'got': final,
                     'sched': j, 'fam': s['fam'], 'mode': s['mode']}})
@@ -244,25 +248,40 @@ class C07(Check):
         m = imgsim.fi()
         plan = [x for x in sizes if x > 0] if s['mode'] == 'wfile' else sizes
         src = SimSource(data, plan)
-        w = m.InspectWrapper(src)
+        exp = fmt if (s.get('expected') and fmt in F.FORMATS) else None
+        w = m.InspectWrapper(src, expected_format=exp)
         imgsim.order_inspectors(w, s.get('order') or list(F.FORMATS))
         insp = imgsim.wrapper_inspectors(w)[fmt]
         pos = 0
         idx = 0
+        aborted = False
         while True:
-            if s['mode'] == 'wfile':
-                chunk = w.read(plan[idx] if idx < len(plan) else 4096)
-                if not chunk:
-                    break
-            else:
-                try:
-                    chunk = next(w)
-                except StopIteration:
-                    break
+            try:
+                if s['mode'] == 'wfile':
+                    chunk = w.read(plan[idx] if idx < len(plan) else 4096)
+                    if not chunk:
+                        break
+                else:
+                    try:
+                        chunk = next(w)
+                    except StopIteration:
+                        break
+            except core.StepCapExceeded:
+                raise
+            except Exception:
+                if exp is None:
+                    raise
+                # the expected format's inspector cut the stream off (C06's
+                # subject): the whole stream was not presented, nothing to
+                # compare the final size with
+                aborted = True
+                break
             idx += 1
             pos += len(chunk)
             trace.append((pos, imgsim.q_attr(insp, 'virtual_size')))
         w.close()
+        if aborted:
+            return None, trace
         return imgsim.q_attr(insp, 'virtual_size'), trace
 
     def finding(self, case, v):
